@@ -42,6 +42,30 @@ def gen_model(rng, max_files=3):
     return files
 
 
+_SHAPES = None
+
+
+def shape_models():
+    """fixed coverage models: {no, one, several} lines x {no, one, several} functions x branches, alone and in company"""
+    global _SHAPES
+    if _SHAPES is None:
+        import copy
+        ls = {0: [], 1: [{"line": 3, "count": 7, "branches": []}],
+              2: [{"line": 1, "count": 0, "branches": ["taken", "nottaken"]}, {"line": 2, "count": 5, "branches": []},
+                  {"line": 9, "count": 2**64 - 1, "branches": ["notexec"]}]}
+        fs = {0: [], 1: [{"name": b"f", "start": 3, "count": 1}],
+              2: [{"name": b"g<T, U>", "start": 1, "count": 0}, {"name": b"h", "start": 2, "count": 2**32}]}
+        one = lambda a, b: {"name": b"s%d%d.c" % (a, b), "funcs": fs[b], "lines": ls[a]}
+        singles = [[one(a, b)] for a in (0, 1, 2) for b in (0, 1, 2)]
+        multi = [[one(a, b) for a in (0, 1, 2) for b in (0, 1, 2)],
+                 [one(1, 0), one(0, 1), one(1, 1)],      # lines/no functions, functions/no lines, both
+                 [one(0, 1), one(1, 0)], [one(0, 0), one(2, 0), one(0, 2)]]
+        _SHAPES = singles + multi
+    import copy
+    # no sharing between the files of a model (the text serialiser rewrites counts it spells as negative)
+    return [[copy.deepcopy(f) for f in m] for m in _SHAPES]
+
+
 def ref_model(files):
     """what a coverage model says (files without lines omitted)."""
     out = []
